@@ -1,7 +1,72 @@
 import CB.Driver.Util
+import CB.Model.ModArith
 namespace CB
+open CB.ModArith
 
-/-- operations of property C07 (op names start with `c07.`) -/
-def dispatchC07 : Dispatch := fun _ _ => none
+/-!
+  Driver of property C07.  Every line prints `L1 ;; L0`:
+  `L1` = the limb-level model of `CB.Model.ModArith` (mirrors the release build),
+  `L0` = what the property demands, computed on plain `Nat`s (the canonical residue).
+  Fixed-width results are printed as hex values, boxed results as `<nlimbs>:<hex>`.
+  Generators only emit lines inside the documented preconditions (`a, b < p`, `p` odd where
+  required, `1 ≤ c < 2^64`), so `L0` is defined on every line.
+-/
+
+private def hexs? (l : List String) : Option (List Nat) := l.mapM hexToNat?
+
+/-- L0 helpers on values -/
+private def l0add (a b p : Nat) : Nat := (a + b) % p
+private def l0sub (a b p : Nat) : Nat := (a + p - b % p) % p
+private def l0neg (a p : Nat) : Nat := (p - a % p) % p
+private def l0mul (a b p : Nat) : Nat := (a * b) % p
+/-- the unique `r < p` with `2 r ≡ a (mod p)`, `p` odd: `a · (p+1)/2 mod p` -/
+private def l0half (a p : Nat) : Nat := (a * ((p + 1) / 2)) % p
+
+private def outU (l1 : List Nat) (l0 : Nat) : String := s!"{limbsHex l1} ;; {natToHex l0}"
+private def outB (l1 : List Nat) (n l0 : Nat) : String := s!"{limbsHexLen l1} ;; {n}:{natToHex l0}"
+
+def dispatchC07 : Dispatch := fun op args =>
+  match args with
+  | [] => none
+  | nTok :: rest =>
+    match nTok.toNat?, hexs? rest with
+    | some n, some vs =>
+      let L := toLimbs n
+      let K := B ^ n
+      match op, vs with
+      -- fixed width --------------------------------------------------------------------------
+      | "c07.u.add_mod", [a, b, p] => some (outU (addMod (L a) (L b) (L p)) (l0add a b p))
+      | "c07.u.add_mod_tr", [a, b, p] => some (outU (addMod (L a) (L b) (L p)) (l0add a b p))
+      | "c07.u.double_mod", [a, p] => some (outU (doubleMod (L a) (L p)) (l0add a a p))
+      | "c07.u.sub_mod", [a, b, p] => some (outU (subMod (L a) (L b) (L p)) (l0sub a b p))
+      | "c07.u.sub_mod_tr", [a, b, p] => some (outU (subMod (L a) (L b) (L p)) (l0sub a b p))
+      | "c07.u.neg_mod", [a, p] => some (outU (negMod (L a) (L p)) (l0neg a p))
+      | "c07.u.neg_mod_tr", [a, p] => some (outU (negMod (L a) (L p)) (l0neg a p))
+      | "c07.u.add_mod_special", [a, b, c] => some (outU (addModSpecial (L a) (L b) c) (l0add a b (K - c)))
+      | "c07.u.sub_mod_special", [a, b, c] => some (outU (subModSpecial (L a) (L b) c) (l0sub a b (K - c)))
+      | "c07.u.neg_mod_special", [a, c] => some (outU (negModSpecial (L a) c) (l0neg a (K - c)))
+      | "c07.u.mul_mod_special", [a, b, c] => some (outU (mulModSpecial (L a) (L b) c) (l0mul a b (K - c)))
+      | "c07.u.mul_mod", [a, b, p] => some (outU (mulMod (L a) (L b) (L p)) (l0mul a b p))
+      | "c07.u.mul_mod_vartime", [a, b, p] => some (outU (mulModVartime (L a) (L b) (L p)) (l0mul a b p))
+      | "c07.u.mul_mod_tr", [a, b, p] => some (outU (mulModVartime (L a) (L b) (L p)) (l0mul a b p))
+      | "c07.u.div_by_2", [a, p] => some (outU (divBy2 (L a) (L p)) (l0half a p))
+      -- boxed --------------------------------------------------------------------------------
+      | "c07.b.add_mod", [a, b, p] => some (outB (bAddMod (L a) (L b) (L p)) n (l0add a b p))
+      | "c07.b.add_mod_assign", [a, b, p] => some (outB (bAddMod (L a) (L b) (L p)) n (l0add a b p))
+      | "c07.b.add_mod_tr", [a, b, p] => some (outB (bAddMod (L a) (L b) (L p)) n (l0add a b p))
+      | "c07.b.double_mod", [a, p] => some (outB (bDoubleMod (L a) (L p)) n (l0add a a p))
+      | "c07.b.sub_mod", [a, b, p] => some (outB (bSubMod (L a) (L b) (L p)) n (l0sub a b p))
+      | "c07.b.sub_mod_tr", [a, b, p] => some (outB (bSubMod (L a) (L b) (L p)) n (l0sub a b p))
+      | "c07.b.neg_mod", [a, p] => some (outB (bNegMod (L a) (L p)) n (l0neg a p))
+      | "c07.b.neg_mod_tr", [a, p] => some (outB (bNegMod (L a) (L p)) n (l0neg a p))
+      | "c07.b.sub_mod_special", [a, b, c] => some (outB (bSubModSpecial (L a) (L b) c) n (l0sub a b (K - c)))
+      | "c07.b.neg_mod_special", [a, c] => some (outB (bNegModSpecial (L a) c) n (l0neg a (K - c)))
+      | "c07.b.mul_mod_special", [a, b, c] => some (outB (bMulModSpecial (L a) (L b) c) n (l0mul a b (K - c)))
+      | "c07.b.mul_mod", [a, b, p] => some (outB (mulMod (L a) (L b) (L p)) n (l0mul a b p))
+      | "c07.b.mul_mod_tr", [a, b, p] => some (outB (mulMod (L a) (L b) (L p)) n (l0mul a b p))
+      | "c07.b.div_by_2", [a, p] => some (outB (bDivBy2 (L a) (L p)) n (l0half a p))
+      | "c07.b.div_by_2_assign", [a, p] => some (outB (bDivBy2 (L a) (L p)) n (l0half a p))
+      | _, _ => none
+    | _, _ => badArgs
 
 end CB
